@@ -19,6 +19,12 @@
 
 package getty
 
+import (
+	"sync/atomic"
+
+	getty "github.com/apache/dubbo-getty"
+)
+
 // VerifPendingFutures returns the number of entries in the pending-future table and in the
 // merged-message table of the process-wide remoting client.
 // Verification-only: compiled with the build tag `verif`.
@@ -33,4 +39,29 @@ func VerifPendingFutures() (futures int, merged int) {
 		return true
 	})
 	return futures, merged
+}
+
+// VerifSessionBook reports the session registry: how many registered sessions are open, how many closed, and
+// the value of the session counter. Verification-only.
+func VerifSessionBook() (open int, closed int, counter int32) {
+	sessionManager.allSessions.Range(func(key, _ interface{}) bool {
+		if key.(getty.Session).IsClosed() {
+			closed++
+		} else {
+			open++
+		}
+		return true
+	})
+	return open, closed, atomic.LoadInt32(&sessionManager.sessionSize)
+}
+
+// VerifRegisterSilently puts a session into the registry the way OnOpen does, without announcing anything on
+// it (a connection that went away again before the client could use it). Verification-only.
+func VerifRegisterSilently(s getty.Session) {
+	sessionManager.registerSession(s)
+}
+
+// VerifSelect is the session the client would write the given request to. Verification-only.
+func VerifSelect(msg interface{}) getty.Session {
+	return sessionManager.selectSession(msg)
 }
